@@ -108,6 +108,16 @@ def _module_constant(module, name):
     return hits[0] if len(hits) == 1 else None
 
 
+class NTClass:
+    """a collections.namedtuple class created by the interpreted program"""
+
+    def __init__(self, name, fields):
+        self.name, self.fields = name, list(fields)
+
+    def __repr__(self):
+        return "<namedtuple %s>" % self.name
+
+
 class Closure:
     """a nested `def` or a lambda of the interpreted program: called with the variables of the enclosing run in view"""
 
@@ -365,6 +375,8 @@ class IndexInterp:
         if isinstance(e, ast.Subscript):
             base = self.ev(e.value)
             idx = self.ev(e.slice)
+            if isinstance(base, SymObj) and getattr(base, "nt_fields", None) is not None and isinstance(idx, int) and -len(base.nt_fields) <= idx < len(base.nt_fields):
+                return base.attrs[base.nt_fields[idx]]
             if is_token(base) and base[0] != "array":
                 return ("read", base, idx)
             if isinstance(base, tuple) and len(base) == 2 and base[0] == "array":
@@ -487,6 +499,8 @@ class IndexInterp:
                 self._comp(gens, k + 1, emit)
 
     def _iterate(self, v, node):
+        if isinstance(v, SymObj) and getattr(v, "nt_fields", None) is not None:
+            return [v.attrs[f0] for f0 in v.nt_fields]
         if isinstance(v, dict):
             return list(v.keys())
         if isinstance(v, frozenset) and len(v) <= 1:
@@ -522,6 +536,25 @@ class IndexInterp:
             mc = self._operator_caller(self.env[e.func.id])
             if mc is not None:
                 return mc(self.ev(e.args[0]))
+        if nm == "namedtuple" and len(e.args) >= 2:
+            n0, f0 = self.ev(e.args[0]), self.ev(e.args[1])
+            if isinstance(n0, str) and (isinstance(f0, str) or (isinstance(f0, (list, tuple)) and all(isinstance(x, str) for x in f0))):
+                return NTClass(n0, f0.replace(",", " ").split() if isinstance(f0, str) else list(f0))
+        if isinstance(e.func, ast.Name):
+            try:
+                callee = self.ev(e.func) if (e.func.id in self.env or self.home is not None) else None
+            except AnalysisError:
+                callee = None
+            if isinstance(callee, NTClass):
+                vals = self.call_args(e)
+                kws = {k.arg: self.ev(k.value) for k in e.keywords if k.arg}
+                if len(vals) + len(kws) != len(callee.fields) or any(k0 not in callee.fields for k0 in kws):
+                    raise ProgramRaise("TypeError", "`%s`: wrong fields for the namedtuple %s" % (src(e)[:50], callee.name))
+                attrs = dict(zip(callee.fields, vals))
+                attrs.update(kws)
+                o = SymObj(callee.name, **attrs)
+                o.nt_fields = list(callee.fields)
+                return o
         if isinstance(e.func, ast.Name) and isinstance(self.env.get(e.func.id), Closure):
             return self.call_closure(self.env[e.func.id], self.call_args(e), {k.arg: self.ev(k.value) for k in e.keywords if k.arg}, e)
         if isinstance(e.func, ast.Name) and e.func.id in ("map", "starmap") and len(e.args) >= 2 and e.func.id not in self.env:
@@ -719,7 +752,7 @@ class IndexInterp:
             return m
         if nm in ("array", "asarray") and not isinstance(e.func, ast.Name) and len(args) == 1 and isinstance(args[0], (list, tuple)) and not is_token(args[0]):
             return list(args[0])
-        if isinstance(e.func, ast.Attribute) and nm in ("startswith", "endswith", "lower", "upper", "strip", "format", "split", "join"):
+        if isinstance(e.func, ast.Attribute) and nm in ("startswith", "endswith", "lower", "upper", "strip", "lstrip", "rstrip", "format", "split", "join", "title", "capitalize"):
             try:
                 base = self.ev(e.func.value)
             except AnalysisError:
